@@ -20,6 +20,7 @@ RULE = ("closed polygons with integer vertices (convex, concave, self-intersecti
 ASSUMPTIONS = ["arc shapes are measured with chord_length = 1e-2 x size (the default 1e-4 costs seconds per arc); bound: relative deficit <= "
                "(h/r_min)^2/6 + 1e-9", "probe segments must miss every vertex by > 1e-6 x size and be transversal to every edge they meet "
                "(exact test); curved outlines: query points farther than 2e-3 x size from the boundary, parity from an 800-point-per-segment flattening"]
+RULE += ' Also: Scaling about arbitrary origins with non-dyadic factors, laws on mixed arc/line outlines, exactly vertical/horizontal probes, polygon edges written as degree-elevated Beziers, rounded rectangles with chord lengths around the corner-arc length.'   # added after the seeded-change rounds (DESIGN.md section 10)
 CONFIGS = ['scipy']
 BUDGET = {'quick': 16000, 'thorough': 300000}
 REQUIRED = ['area:polygon', 'area:bezier', 'area:ellipse', 'area:mixed', 'law:reversed', 'law:translated', 'law:scaled', 'law:scaled_xy',
